@@ -127,11 +127,12 @@ const (
 )
 
 type world struct {
-	dev      bool
-	synced   string               // configured key value the key model was derived from
-	keys     map[string]tok       // configured keys that were unexpired when they were imported
-	keyExp   map[string]time.Time // expiry of those keys that have one
-	sessions map[string]*modelSession
+	dev          bool
+	synced       string               // configured key value the key model was derived from
+	syncedStores int64                // number of stores into the configuration when that value was read
+	keys         map[string]tok       // configured keys that were unexpired when they were imported
+	keyExp       map[string]time.Time // expiry of those keys that have one
+	sessions     map[string]*modelSession
 
 	ops       []jop    // what the harness did to / asked of this world (hang_test.go)
 	sessNames []string // session cookie values in the order of their creation
